@@ -1,5 +1,5 @@
 import XlModel.CalcTotal
-import XlModel.Nest
+import XlModel.NestA
 import XlModel.Drv.Util
 /-
 Line-protocol driver for C09.
@@ -528,8 +528,8 @@ def step (w : List String) : String :=
   match w with
   | "ev" :: toks => match parseToks toks with
     | some ts =>
-      -- hypothesis of `eval_no_panic_functions`: properly nested and free of array constants
-      let hyp := CalcTotal.nested [] 0 ts && ts.all fun t => !(isFuncStart t && (t.val == "ARRAY" || t.val == "ARRAYROW"))
+      -- hypothesis of `Props.C09.eval_no_panic`: the array-aware nesting discipline
+      let hyp := CalcTotal.nestedA [] [] ts
       showOutcome (evalTokens semC ts) ++ (if hyp then " h=1" else " h=0")
     | none => "bad-op"
   | "opn" :: rest => (match rest.getLast? with
